@@ -67,12 +67,13 @@ def sub_specs(draw, need_sinks: list[str], source_names_hint: list[str]):
     n_proc = draw(st.integers(0, 2))
     extra_sinks = draw(st.integers(0, 1))
     name_st = st.text(alphabet=ADVERSARIAL, min_size=1, max_size=3)
-    pool = draw(st.lists(name_st, min_size=n_src + n_proc + extra_sinks + 2, max_size=n_src + n_proc + extra_sinks + 2, unique=True))
+    want = n_src + n_proc + extra_sinks + 2 + len(need_sinks)  # some may be filtered out below; keep enough
+    pool = draw(st.lists(name_st, min_size=want, max_size=want, unique=True))
     pool = [p for p in pool if p not in need_sinks]
     nodes: list[dict] = []
     for i in range(n_src):
         nm = draw(st.sampled_from(source_names_hint)) if source_names_hint and draw(st.booleans()) else pool.pop()
-        if any(nd["name"] == nm for nd in nodes) or nm in need_sinks:
+        if any(nd["name"] == nm for nd in nodes) or nm in need_sinks or nm in pool:
             nm = pool.pop()
         outs = draw(st.sampled_from([None, None, ["0", "1"], ["x"]]))
         nodes.append({"name": nm, "outputs": outs, "payload": draw(small_payloads), "inputs": {}})
